@@ -162,9 +162,16 @@ def _tree(item):
     reached = list(dict.fromkeys(rfc))
     base = {(m, n) for m, names in ml.ML_ALLOWLIST.items() for n in names}
     shape = "/".join(f"{ld}>{ct}" for ld, ct in tree) or "direct"
-    for (aname, adds), entry in itertools.product(ADDITIONS.items(), ENTRIES):
+    for (aname, adds), entry, reactivated in itertools.product(ADDITIONS.items(), ENTRIES, (False, True)):
         allowed = base | {tuple(a.rsplit(".", 1)) for a in adds}
         restore()
+        if reactivated:
+            # the environment is re-activated with a different addition set without being removed in between: only the
+            # additions of the activation in force count
+            if entry != "pickle.loads":
+                continue
+            hook.activate_safe_ml_environment(also_allow=list(ADDITIONS["all"]))
+            aname = aname + "(after all)"
         hook.activate_safe_ml_environment(also_allow=list(adds) or None)
         try:
             how, val, log, fc = observed(lambda: run_entry(entry, data))
